@@ -5,6 +5,7 @@ import (
 	"io"
 	"os"
 	"path/filepath"
+	"runtime"
 	"sort"
 	"strconv"
 	"strings"
@@ -188,6 +189,10 @@ func runCoord(c *core.RunCtx) {
 			c.Count("infra.bubble_panic", 1)
 			c.Log("infra", "bubble panic: %v", e)
 			fmt.Printf("pdsim: bubble ended with panic (counted as inconclusive): %.600v\n", e)
+			if os.Getenv("PDSIM_STACKS") != "" {
+				buf := make([]byte, 1<<20)
+				fmt.Printf("%s\n", buf[:runtime.Stack(buf, true)])
+			}
 			c.Inconclusive++
 		}
 	}()
